@@ -7,7 +7,7 @@ LOG = []
 
 def hit(*args, **kwargs):
     LOG.append(("hit", args, kwargs))
-    return ("hit-result", len(LOG))
+    return ("hit-result",) + tuple(args)
 
 
 def mk(*args):
